@@ -328,15 +328,17 @@ theorem items_shape {st st' : State} (h : SInv st) (m : Micro) (he : exec' st m 
 
 theorem putResolved_shape {st st' : State} (c : Var) (p : Nat) (kr vr : Option (Option Loc × Option Nat))
     (srcs : List (Nat × Option Loc × Option Nat)) (he : putResolved st c p kr vr srcs = some st') :
-    st'.nodes = st.nodes ∨
-    (∃ q, st' = insertNew st c q srcs ∧
+    (st'.nodes = st.nodes ∧ ∃ l kp j, kr = some (l, some kp) ∧ c.k ≠ .U ∧
+        findField st 0 kp (st.nodes c).items = some j) ∨
+    (∃ q, st' = insertNew st c q srcs ∧ (c.k.hasKey = false → q = p) ∧
       (c.k.hasKey = true → ∃ l kp, kr = some (l, some kp) ∧
         (c.k = .U → q = countWhile st (fun x => x ≤ kp) (st.nodes c).items) ∧
         (c.k ≠ .U → findField st 0 kp (st.nodes c).items = none ∧
-          (c.k = .M → q = countWhile st (fun x => x < kp) (st.nodes c).items)))) := by
+          (c.k = .M → q = countWhile st (fun x => x < kp) (st.nodes c).items) ∧ (c.k ≠ .M → q = p)))) := by
   unfold putResolved at he
   by_cases hk : c.k.hasKey = true
-  · simp only [hk, if_true] at he
+  · have hnf : ∀ {P : Prop}, c.k.hasKey = false → P := fun hk' => by rw [hk] at hk'; cases hk'
+    simp only [hk, if_true] at he
     cases kr with
     | none => simp at he
     | some kk =>
@@ -347,13 +349,15 @@ theorem putResolved_shape {st st' : State} (c : Var) (p : Nat) (kr vr : Option (
         simp only at he
         by_cases hU : c.k = .U
         · simp only [hU, if_true, Option.some.injEq] at he
-          refine Or.inr ⟨_, he.symm, fun _ => ⟨kl, kp, rfl, fun _ => rfl, fun hn => absurd hU hn⟩⟩
+          refine Or.inr ⟨_, he.symm, hnf, fun _ => ⟨kl, kp, rfl, fun _ => rfl, fun hn => absurd hU hn⟩⟩
         · simp only [hU, if_false] at he
           cases hfind : findField st 0 kp (st.nodes c).items with
           | none =>
             simp only [hfind, Option.some.injEq] at he
-            refine Or.inr ⟨_, he.symm, fun _ => ⟨kl, kp, rfl, fun hu => absurd hu hU, fun _ => ⟨hfind, ?_⟩⟩⟩
-            intro hM; simp [hM]
+            refine Or.inr ⟨_, he.symm, hnf,
+              fun _ => ⟨kl, kp, rfl, fun hu => absurd hu hU, fun _ => ⟨hfind, ?_, ?_⟩⟩⟩
+            · intro hM; simp [hM]
+            · intro hM; simp [hM]
           | some j =>
             simp only [hfind] at he
             by_cases hMH : c.k = .M ∨ c.k = .H
@@ -370,11 +374,11 @@ theorem putResolved_shape {st st' : State} (c : Var) (p : Nat) (kr vr : Option (
                   | none => simp [putAssign] at he
                   | some vl =>
                     simp only [putAssign, Option.some.injEq] at he
-                    subst he; exact Or.inl rfl
+                    subst he; exact Or.inl ⟨rfl, kl, kp, j, rfl, hU, hfind⟩
             · simp only [hMH, if_false, Option.some.injEq] at he
-              subst he; exact Or.inl rfl
+              subst he; exact Or.inl ⟨rfl, kl, kp, j, rfl, hU, hfind⟩
   · simp only [hk, Bool.false_eq_true, if_false, Option.some.injEq] at he
-    exact Or.inr ⟨_, he.symm, fun hk' => absurd hk' hk⟩
+    exact Or.inr ⟨_, he.symm, fun _ => rfl, fun hk' => absurd hk' hk⟩
 
 theorem keys_some {st : State} (h : SInv st) (c : Var) (hk : c.k.hasKey = true) :
     ∀ a, a ∈ keysOf st c → ∃ k, a = some k := by
@@ -428,7 +432,7 @@ theorem keysOk_put {st st' : State} (h : SInv st) (hk : KeysOk st) (c : Var) (po
         by_cases hpos : pos.getD (st.nodes c').items.length > (st.nodes c').items.length
         · simp [hpos] at he'
         · simp only [hpos, if_false] at he'
-          rcases putResolved_shape c' _ kr vr srcs he' with hn | ⟨q, rfl, hq⟩
+          rcases putResolved_shape c' _ kr vr srcs he' with ⟨hn, _⟩ | ⟨q, rfl, _, hq⟩
           · rw [hsame c' (by rw [hn])]; exact hk c'
           · have hfs := (mapM_fields (P := fun _ _ => True) kr vr (fun _ _ _ => trivial) (fun _ _ _ => trivial)
               c'.k.fields srcs hsr).1
@@ -456,7 +460,7 @@ theorem keysOk_put {st st' : State} (h : SInv st) (hk : KeysOk st) (c : Var) (po
               refine ⟨kp, by rw [← hxk, ← hmem x hx, hx0], ?_, ?_⟩
               · intro hu; rw [hU hu, countWhile_eq]; rfl
               · intro hnu
-                obtain ⟨hf, hM⟩ := hnU hnu
+                obtain ⟨hf, hM, _⟩ := hnU hnu
                 refine ⟨findField_none st kp _ hf, ?_⟩
                 intro hm; rw [hM hm, countWhile_eq]; rfl
             rw [hkeys]
@@ -526,7 +530,7 @@ theorem keysOk_exec {st st' : State} (h : SInv st) (hk : KeysOk st) (m : Micro) 
       · subst h1
         refine ⟨c, hkk, ?_⟩
         have : keysOf ((st.setNode c (st.nodes c')).setNode c' (st.nodes c)) c' = keysOf st c := by
-          simp [keysOf, hko, upd_same]
+          simp [keysOf, hko]
         rw [this]; exact List.Sublist.refl _
       · by_cases h2 : c' = c
         · subst h2
